@@ -240,6 +240,28 @@ Proof.
   destruct (nq >? 1000); cbn; auto.
 Qed.
 
+(* ------------------------------------------------------------------------------------ num_fri_layers *)
+(* the fuel of the model's loop (64) is never exhausted for a 64-bit domain size and a folding factor >= 2: more fuel
+   does not change the result, i.e. the function is the while loop of FriOptions::num_fri_layers *)
+Lemma nfl_loop_zero fuel ff m : 0 <= m -> nfl_loop fuel 0 ff m = 0.
+Proof. intros Hm. destruct fuel; cbn [nfl_loop]; [reflexivity|]. destruct (Z.gtb_spec 0 m); [lia | reflexivity]. Qed.
+
+Lemma nfl_loop_fuel f : forall k d ff m, 0 <= d < 2 ^ Z.of_nat f -> 2 <= ff -> 0 <= m ->
+  nfl_loop (f + k) d ff m = nfl_loop f d ff m.
+Proof.
+  induction f as [|f IH]; intros k d ff m Hd Hff Hm.
+  - change (2 ^ Z.of_nat 0) with 1 in Hd. assert (d = 0) by lia. subst d. cbn [Nat.add]. now rewrite !nfl_loop_zero.
+  - cbn [Nat.add nfl_loop]. destruct (d >? m); [|reflexivity]. f_equal. apply IH; auto.
+    rewrite Nat2Z.inj_succ, Z.pow_succ_r in Hd by lia.
+    split; [apply Z.div_pos; lia|].
+    apply Z.div_lt_upper_bound; [lia|].
+    assert (0 < 2 ^ Z.of_nat f) by (apply Z.pow_pos_nonneg; lia). nia.
+Qed.
+
+Theorem num_fri_layers_fuel : forall extra lde ff rmd bf, 0 <= lde < 2 ^ 64 -> 2 <= ff -> 0 <= (rmd + 1) * bf ->
+  nfl_loop (64 + extra) lde ff ((rmd + 1) * bf) = num_fri_layers lde ff rmd bf.
+Proof. intros. unfold num_fri_layers. apply (nfl_loop_fuel 64); auto. Qed.
+
 (* the admissible ranges are not empty, and outside them the documented panics are real *)
 Example typed_ranges_nonvacuous :
   Queries_parse F64P 1 32 (mkQ [0] (to_le_bytes 8 5)) 16 1 1 = Ok (mkQS 1 1 4 []) /\
